@@ -177,6 +177,9 @@ def run_tlc(tla, cfg, wd, workers=None, timeout=900, simulate=None, depth=None, 
     m2 = re.search(r"Action property (\S+) is violated", out)
     if m2:
         res.kind, res.violated = "invariant", m2.group(1)
+    m3 = re.search(r"Temporal propert(?:y (\S+) was|ies were) violated", out)
+    if res.kind is None and m3:
+        res.kind, res.violated = "temporal", (m3.group(1) or "temporal property")
     if res.kind is None and re.search(r"Deadlock reached", out):
         res.kind, res.violated = "deadlock", "Deadlock"
     if res.kind is None:
